@@ -47,6 +47,7 @@ def setup(rep, tier):
     rep.minimum('R08.6', 2)
     rep.minimum('R08.7', 1)
     rep.minimum('R08.8', 1)
+    rep.minimum('R08.9', 1)
 
 
 def r08_1(rep, prog):
@@ -542,7 +543,50 @@ def r08_8(rep, prog):
         rep.unresolved('R08.8', '%s: no store to val in ec_enc_patch_initial_bits' % prog.config)
 
 
+# ------------------------------------------------------------------ R08.9
+def r08_9(rep, prog):
+    """finishing the stream flushes every byte that is still held back: the closing ec_enc_carry_out(this, 0) of
+    ec_enc_done is reached when a byte waits in rem AND when only a run of 0xFF bytes is pending (rem == -1, ext > 0:
+    every range byte produced so far was 0xFF).  Path feasibility under the two valuations."""
+    from .. import decide
+    f = prog.fn('ec_enc_done')
+    rep.functions.add(f.name)
+    cf = cfgm.CFG(f)
+    sites = [(b, i, c) for b, i, c in T.calls_to(cf, 'ec_enc_carry_out') if len(c[2]) > 1 and sx.int_val(sx.strip(c[2][1])) == 0]
+    inst = '%s:ec_enc_done flushes held-back bytes whether they wait in rem or as a pending run of 0xFF' % prog.config
+    if not sites:
+        rep.unresolved('R08.9', inst + ': no closing ec_enc_carry_out(this, 0)')
+        return
+    b0 = sites[-1][0]
+    kt = ('param', 0)
+    bad = []
+    for nm, val in (('a byte waits in rem', {('field', kt, 'rem'): 5, ('field', kt, 'ext'): 0}), ('only 0xFF bytes are pending (rem == -1, ext > 0)', {('field', kt, 'rem'): -1, ('field', kt, 'ext'): 1})):
+        feas = decide.feasible_blocks(cf, val)
+        # the flush must be unavoidable: the function exit is not reachable without passing the call block
+        seen, work, skip = {cf.entry}, [cf.entry], False
+        blocks, edges = decide.feasible_edges(cf, val)
+        while work:
+            x = work.pop()
+            if x == b0:
+                continue
+            if x == cf.exit:
+                skip = True
+                break
+            for y in cf.succ[x]:
+                if (x, y) in edges and y not in seen:
+                    seen.add(y)
+                    work.append(y)
+        if skip or b0 not in feas:
+            bad.append(nm)
+    where = '%s:%s' % (f.file, sx.line(sites[-1][2]))
+    if bad:
+        rep.violated('R08.9', inst, where, 'when %s the function can finish without the closing carry-out: those bytes are never written (the buffer keeps zeros) and no error is reported' % bad[0], key='enc-done-flush')
+    else:
+        rep.holds('R08.9', inst, where, 'the closing carry-out is unavoidable under both valuations')
+
+
 def check(rep, prog, tier):
+    r08_9(rep, prog)
     r08_8(rep, prog)
     r08_7(rep, prog)
     r08_5(rep, prog)
